@@ -62,6 +62,7 @@ type Exec struct {
 	edges  map[*ssa.BasicBlock][]edgeIn
 	deferList []*ssa.Defer
 	discovery int // >0 while in loop-discovery mode
+	runningDefer bool // executing a deferred call (its function value was checked at the defer statement)
 	callOrd map[string]int
 	paramVals map[string]val
 	closureOf map[ssa.Value]*ssa.MakeClosure
@@ -941,6 +942,15 @@ func (x *Exec) instr(st *State, in ssa.Instruction) {
 	case *ssa.Defer:
 		name := x.armedComp(t)
 		vc.set(st, name, "true")
+		// the function value of `defer f()` is fixed here: a nil f panics when the deferred call runs, so f != nil is
+		// checked where the value is known (the deferred run itself may sit behind a loop cut)
+		if _, isB := t.Call.Value.(*ssa.Builtin); !isB && !t.Call.IsInvoke() {
+			if _, isC := t.Call.Value.(*ssa.MakeClosure); !isC {
+				if _, isF := t.Call.Value.(*ssa.Function); !isF {
+					x.implicit(st, t, "nilfunc", not(eq(x.value(t.Call.Value), "0")), "deferred call of nil function value")
+				}
+			}
+		}
 	case *ssa.RunDefers:
 		x.runDefers(st, t)
 	case *ssa.ChangeType:
@@ -1006,6 +1016,9 @@ func (x *Exec) instr(st *State, in ssa.Instruction) {
 		ref := x.alloc(st)
 		vc.regComp("ChanClosed", "(Array Int Bool)")
 		vc.set(st, "ChanClosed", store(vc.get(st, "ChanClosed"), ref, "false"))
+		// a channel made here is not the Done channel of a context
+		vc.declFun(quote("spec$isctxdone"), []string{sInt}, sBool)
+		vc.assert(not(app(quote("spec$isctxdone"), ref)))
 		x.vals[t] = ref
 	case *ssa.Send:
 		ch := x.value(t.Chan)
@@ -1177,6 +1190,12 @@ func (x *Exec) unop(st *State, t *ssa.UnOp) {
 		et := t.X.Type().Underlying().(*types.Chan).Elem()
 		c := vc.fresh("recv", vc.sortOf(et))
 		x.assumeType(st, c, et)
+		if x.g.isFlagChan(t.X) {
+			// never sent on: the receive completes only when the channel is closed (same rule as in select)
+			vc.regComp("ChanClosed", "(Array Int Bool)")
+			vc.assert(implies(st.reach, sel(vc.get(st, "ChanClosed"), x.value(t.X))))
+			x.assumeSignal(st, t.X, "true")
+		}
 		if t.CommaOk {
 			ok := vc.fresh("recvok", sBool)
 			x.tups[t] = []string{c, ok}
@@ -1636,6 +1655,7 @@ func (x *Exec) selectInstr(st *State, t *ssa.Select) {
 			if x.g.isFlagChan(s.Chan) {
 				// never sent on: a receive completes only when closed
 				vc.assert(implies(and(st.reach, eq(idx, fmt.Sprint(i))), sel(closed, ch)))
+				x.assumeSignal(st, s.Chan, eq(idx, fmt.Sprint(i)))
 			}
 		} else {
 			// send case
@@ -1643,6 +1663,21 @@ func (x *Exec) selectInstr(st *State, t *ssa.Select) {
 		}
 	}
 	x.tups[t] = tup
+}
+
+// assumeSignal: a completed receive from a channel declared `flagchan T.f signals Pred` lets the receiver assume
+// Pred(owner): the closer established it before closing (obligation at the close site), and the predicate is required
+// to be stable from then on (stated in the contract file where the flag channel is declared).
+func (x *Exec) assumeSignal(st *State, ch ssa.Value, cond string) {
+	pred, owner, pkg := x.g.flagSignal(ch)
+	if pred == "" {
+		return
+	}
+	env := x.newEnvFor(st, st, pkg)
+	env.names["$obj"] = val{x.value(owner), owner.Type(), sInt}
+	t := env.evalBool(&CExpr{Op: "call", Name: pred, Args: []*CExpr{{Op: "ident", Name: "$obj"}}})
+	x.vc.assert(implies(and(st.reach, cond), t))
+	x.vc.note("channel-signalled fact assumed after a receive: " + pred)
 }
 
 func (x *Exec) blockingOp(in ssa.Instruction, what string) {
@@ -1664,7 +1699,9 @@ func (x *Exec) runDefers(st *State, in *ssa.RunDefers) {
 		// branch: armed -> run call
 		s1 := st.clone()
 		s1.reach = and(st.reach, armed)
+		x.runningDefer = true
 		x.call(s1, d, &d.Call, nil)
+		x.runningDefer = false
 		s0 := st.clone()
 		merged := x.vc.merge([]edge{{s1, s1.reach}, {s0, and(st.reach, not(armed))}}, "defer")
 		*st = *merged
